@@ -156,13 +156,21 @@ def scenario_fit(fam, cfg, metric):
             return m
         m._fit = _fit
     before = len(data.disqualification)
+    dq_snapshot, w_snapshot = list(data.disqualification), list(data.warnings)
+    dq_obj, w_obj = data.disqualification, data.warnings
+
+    def data_state():
+        same = data.disqualification is dq_obj and data.warnings is w_obj and \
+            len(data.disqualification) == len(dq_snapshot) and all(a is b for a, b in zip(data.disqualification, dq_snapshot)) and \
+            len(data.warnings) == len(w_snapshot) and all(a is b for a, b in zip(data.warnings, w_snapshot))
+        return dict(data_unchanged=same, data_dq_after=[w.qualified_name for w in data.disqualification], data_warn_after=[w.qualified_name for w in data.warnings])
     try:
         r = m.fit(data, ignore_disqualification=cfg["ignore"])
     except Exception as ex:
-        return dict(kind="raise", exc=type(ex).__name__, model_dq=None, returned_self=False)
+        return dict(kind="raise", exc=type(ex).__name__, model_dq=None, returned_self=False, **data_state())
     names = [w.qualified_name for w in m.disqualification]
     return dict(kind="return", exc=None, model_dq=len(m.disqualification), returned_self=(r is m), dq_names=names,
-                fitted=bool(getattr(m, "is_fitted", False)), data_dq_before=before)
+                fitted=bool(getattr(m, "is_fitted", False)), data_dq_before=before, **data_state())
 
 
 def scenario_predict(fam, cfg):
